@@ -73,6 +73,8 @@ def _mflag(y, fn=None):
 def run(ck, m):
     from rules.common import rule_memo_safety
     rule_memo_safety(ck, m, "MEMO", "C03")          # first: a memoised helper also hides the code it wraps from the rules below
+    from rules.common import rule_stateless_renderers
+    rule_stateless_renderers(ck, m, "MEMO")
     rule_chunk_protocol(ck, m, "R1")
 
     # ---- R2 ----------------------------------------------------------------------------
